@@ -97,7 +97,7 @@ def prove(pid: str):
             rc, out = sh(["lake", "env", "lean", audit], cwd=LEAN)
             res["audit_out"] = out[-6000:]
             found = {}
-            for mm in re.finditer(r"'([^']+)' (depends on axioms: \[([^\]]*)\]|does not depend on any axioms)", out.replace("\n ", " ").replace("\n", " ")):
+            for mm in re.finditer(r"'(\S+)' (depends on axioms: \[([^\]]*)\]|does not depend on any axioms)", out.replace("\n ", " ").replace("\n", " ")):
                 axs = {a.strip() for a in (mm.group(3) or "").split(",") if a.strip()}
                 found[mm.group(1)] = axs
             for t in thms:
